@@ -25,6 +25,10 @@ ATOMS = ["~", "/", "-", "%", "+", " ", ":", ".", "_", "h", "H", "f", "P", "I", "
          "://", "http", "https://", "file://", "é", "€", "\n", "~X~", "~E", "%41", "a"]
 CORE = ["~", "/", "-", "%", "+", " ", ":", ".", "_", "h", "H", "f", "P", "I", "X", "E", "2", "F", "é", "://"]
 
+SPECIAL = ["~X~a~E", "~X~data/f.csv~E", "~X~/a/b~E", "~X~a-b/c-d~E", "~X~~E", "~X~-R/a~E", "e\u0301", "\u212b", "\u2126", "\uf900",
+           "a\u0308\u0323", "\ufb01", "ERROR\n", "\n", "a\r\nb", "\t", "\x00", "\ufeffbom", "x~", "~", "~~", "a~/b", "~/", "~I", "~_", "~.",
+           "%41", "%", "%%", "%zz", "100%25", "a+b", "+", " ", "  ", "-", "--", "/", "//", "a/b-c", ".", "..", "file.txt", "http://x", "https://",
+           "file:///etc", "://", "-R", "-R/a", "-/a", "q-", "Q", "_", "1", "-1", "~1", "1e+2"]
 PCHAR = set("ABCDEFGHIJKLMNOPQRSTUVWXYZabcdefghijklmnopqrstuvwxyz0123456789._~!$&'()*+,;=:@")
 PCT = re.compile(r"%[0-9A-Fa-f]{2}")
 
@@ -53,6 +57,7 @@ def shards(tier, seed):
     for which, L, m in plan:
         for k in range(m):
             out.append({"kind": "alphabet", "atoms": which, "L": L, "part": k, "parts": m})
+    out.append({"kind": "special"})
     m = 8 if tier == "quick" else 32
     per = 600 if tier == "quick" else 6000
     for k in range(m):
@@ -204,6 +209,12 @@ def gen_strings(spec):
                 else:
                     parts.append(chr(scalar(rnd.randrange(scalar_count()))))
             yield "".join(parts), True, True
+    elif kind == "special":
+        # text shaped like the library's own syntax, Unicode that normalisation would change, line breaks, ...
+        for t in SPECIAL:
+            yield t, True, True
+            yield "x" + t, True, True
+            yield t + "~", True, True
     elif kind == "replay":
         yield spec["text"], True, True
 
